@@ -536,6 +536,8 @@ func cTerm(name string, cops []cop, r cresult, keys, pays, names *table) string 
 			ats = append(ats, "[]")
 		}
 	}
+	cts = append(cts, "CClose") // runC always closes at the end
+	ats = append(ats, "[]")
 	// the loaded payloads are gob bytes: translate them to the content ids first
 	o := r.obs
 	if o.loaded != nil {
